@@ -18,7 +18,7 @@ import (
 )
 
 // The bundled stores themselves (not a scripted one): every sequence of publishes with a
-// live ('b') or an already-cancelled ('d') context on a fresh bus over the memory, SQLite
+// live ('b'), an already-cancelled ('d') or a request-scoped ('o': live, cancelled once the publish has returned) context on a fresh bus over the memory, SQLite
 // and durable-streams stores. A cancelled publish may or may not be persisted and may
 // report one failure; every publish with a live context - also the first one after a
 // failure, also when the very first publish of the store failed - is persisted exactly
@@ -46,6 +46,7 @@ func realCases(thorough bool) []realCase {
 			}
 			rec(cur + "b")
 			rec(cur + "d")
+			rec(cur + "o")
 		}
 		rec("")
 		// long runs: the offsets of a store change shape as the log grows (more digits, a new
@@ -130,10 +131,22 @@ func runRealBody(rc realCase) (out []string) {
 			}
 			continue
 		}
-		eventbus.Publish(bus, Ev{ID: id})
+		if k == 'o' {
+			// a request-scoped context: live while the publish runs, cancelled right after it
+			// returned. The publish is an ordinary successful one; what the store keeps from it
+			// (a connection, a writer, a prepared request) must not die with that context
+			ctx, cancel := context.WithCancel(bg)
+			eventbus.PublishContext(bus, ctx, Ev{ID: id})
+			cancel()
+		} else {
+			eventbus.Publish(bus, Ev{ID: id})
+		}
 		where := "after a failed publish"
 		if i == 0 || rc.Hist[i-1] != 'd' {
 			where = "after earlier publishes"
+		}
+		if i > 0 && rc.Hist[i-1] == 'o' {
+			where = "after a publish whose context was cancelled once it had returned"
 		}
 		if i > 0 && strings.Count(rc.Hist[:i], "d") == i {
 			where = "when the first publishes of the store had a cancelled context"
